@@ -297,12 +297,18 @@ type msgLine struct {
 	rest string
 }
 
-// splitErr splits an error text into its message lines; ok is false if some line lacks the "line N: " prefix.
+// splitErr splits an error text into its messages; ok is false if the text does not START with "line N: ". A
+// later line without the prefix continues the message before it (a message may quote a piece of the template that
+// spans lines); every line that does carry a prefix is a message of its own, whose N must move with a shift.
 func splitErr(s string) (out []msgLine, bad string, ok bool) {
-	for _, l := range strings.Split(s, "\n") {
+	for i, l := range strings.Split(s, "\n") {
 		m := lineRE.FindStringSubmatch(l)
 		if m == nil {
-			return nil, l, false
+			if i == 0 {
+				return nil, l, false
+			}
+			out[len(out)-1].rest += "\n" + l
+			continue
 		}
 		n, err := strconv.Atoi(m[1])
 		if err != nil {
@@ -364,10 +370,10 @@ func check(r *vk.Run, c Case) *vk.Fail {
 					"tag_lines": []int{first, last}, "error": text, "shifts": c.Shifts}
 			})
 		}
-		// (1) every message line starts with "line N: "
+		// (1) the error starts with "line N: "
 		msgs, bad, ok := splitErr(text)
 		if !ok {
-			return fail("%s error %q: the message line %q does not start with \"line N: \"", api.name, text, bad)
+			return fail("%s error %q: its first line %q does not start with \"line N: \"", api.name, text, bad)
 		}
 		// (2) N names the failing tag
 		if n := msgs[0].n; first == last && n != first {
